@@ -429,7 +429,8 @@ impl H2 {
         let mut send = tokio::time::timeout(T, send.ready()).await.map_err(|_| timed_out("h2 ready"))?.map_err(|e| format!("h2 ready: {e}"))?;
         let (resp, mut stream) = send.send_request(req, r.body.is_empty()).map_err(|e| format!("h2 send_request: {e}"))?;
         if !r.body.is_empty() {
-            stream.send_data(Bytes::copy_from_slice(&r.body), true).map_err(|e| format!("h2 send_data: {e}"))?;
+            // a server may answer (and close the stream) without reading the body: the answer still counts
+            let _ = stream.send_data(Bytes::copy_from_slice(&r.body), true);
         }
         Ok(async move {
             let resp = match tokio::time::timeout(read_timeout(), resp).await {
